@@ -11,8 +11,10 @@ U3: each call becomes an event (arguments and returned array as raw bit patterns
     clause.  Chunk summaries are computed and printed by the spec itself and only transported
     by this driver into the call's summary event.  Products (complex/pair/triple/complex-pair)
     are logged with their 1-D arrays, shapes and cells.
-The driver takes no decision about correctness; it only labels failures for the known-finding keys
-with the path tag and clause names the spec printed.
+The driver takes no decision about correctness; it only labels failures with what the spec printed:
+key = "real_samples:<path tag>:<clause>" (clause "error" becomes "error=<exception type>") or
+"<product kind>:<dtype>:<clause>".  Path tags: default, same_sign, straddle,
+straddle_subnormal_bound, signed_zero_bound (Samples!PathTag).
 """
 import concurrent.futures as cf
 import json
@@ -489,9 +491,6 @@ def describe(a):
 
 
 # ---------------------------------------------------------------------------------------------
-MC_ACTIONS_NOTE = "MC_Samples has no actions: every argument tuple is an initial state"
-
-
 def run_u1(chk, tier):
     cfg = "MC_Samples.cfg" if tier == "quick" else "MC_Samples_thorough.cfg"
     r = tlc.run("MC_Samples", cfg, timeout=1500)
